@@ -60,6 +60,10 @@ func runModel(b *gram.Built, lx *gram.Lexed, allowTrailing bool) (m *gram.Model,
 					expensive = true
 					return
 				}
+				if _, is := r.(gram.Unsupported); is {
+					expensive = true // not evaluated by the reference parser: the case is skipped like an expensive one
+					return
+				}
 				panic(r)
 			}
 		}()
